@@ -108,10 +108,13 @@ def run(ctx):
     # prefer histories that exercise segment removal together with raft records
     def score(h):
         ops = [x["op"] for x in h]
-        return ("RaftAppend" in ops) + ("Rotate" in ops) + ("Flush" in ops) + ("Watchdog" in ops) + ("RaftCompact" in ops) + ("Put" in ops)
+        hs = [x for x in h if x["op"] == "RaftHS"]
+        commit_only = any(a["term"] == b["term"] for a, b in zip(hs, hs[1:]))   # a hard state that only moves the commit index
+        overwrite = any(x["op"] == "RaftAppend" and any(y["op"] == "RaftAppend" and y is not x and y["from"] >= x["from"] for y in h[:h.index(x)]) for x in h)
+        return ("RaftAppend" in ops) + ("Rotate" in ops) + ("Flush" in ops) + ("Watchdog" in ops) + ("RaftCompact" in ops) + ("Put" in ops) + 2 * commit_only + overwrite
     hists.sort(key=lambda h: -score(h))
     ctx.rng.shuffle(hists[: max(10, len(hists) // 2)])
-    nsch = 10 if quick else 80
+    nsch = 16 if quick else 80
     scheds = [to_sched(i, h) for i, h in enumerate(hists[:nsch])]
     for rp in json.load(open(os.path.join(VERIF, "findings", "raftwal_replays.json"))):
         if pid in rp["properties"]:
